@@ -99,6 +99,12 @@ func (self Value) sliceWithDesc(s int, e int, desc *proto.TypeDescriptor) Value 
 // if id is found, return the field tag position, otherwise return the end of p.Buf
 func searchFieldId(p *binary.BinaryProtocol, id proto.FieldNumber, messageLen int) (int, error) {
 	start := p.Read
+	if messageLen < 0 || start+messageLen > len(p.Buf) {
+		return 0, errNode(meta.ErrRead, "searchFieldId: message exceeds the buffer.", nil)
+	}
+	// whatever is searched next lies inside this message: a LIST/MAP at its end must not go on with
+	// the fields that follow the message in its parent and carry the same field number
+	p.Buf = p.Buf[:start+messageLen]
 	for p.Read < start+messageLen {
 		fieldNumber, wireType, tagLen, err := p.ConsumeTagWithoutMove()
 		if err != nil {
